@@ -97,6 +97,14 @@ pub fn build_pass_1(
     })
 }
 
+/// Moves the location counter on, an address beyond 32 bits is an error
+fn advance(address: u32, by: u32, line: &CodePoint) -> Result<u32, Error> {
+    match address.checked_add(by) {
+        Some(address) => Ok(address),
+        None => bail!("address is out of range, {}", line),
+    }
+}
+
 fn pass_1_internal(
     segment: &Segment,
     address: u32,
@@ -126,7 +134,7 @@ fn pass_1_internal(
             }
             Item::Instruction(op, _) => match segment.t {
                 SegmentType::Code => {
-                    cur_address += op.info(common_context).len;
+                    cur_address = advance(cur_address, op.info(common_context).len, line)?;
                     out_items.push((*line, item.clone()));
                 }
                 _ => bail!(
@@ -142,7 +150,7 @@ fn pass_1_internal(
                 DataDefine::Db => {
                     let mut items = items.clone();
 
-                    cur_address += match segment.t {
+                    let size = match segment.t {
                         SegmentType::Code => {
                             (if items.actual_len() % 2 == 1 {
                                 items.push(Operand::E(Expr::Const(0x0)));
@@ -155,6 +163,7 @@ fn pass_1_internal(
                         SegmentType::Eeprom => items.actual_len() as u32,
                         _ => bail!(".db are not allowed in data segment, {}", line),
                     };
+                    cur_address = advance(cur_address, size, line)?;
 
                     out_items.push((*line, Item::Data(DataDefine::Db, items)));
                 }
@@ -165,11 +174,12 @@ fn pass_1_internal(
                         DataDefine::Dq => 8,
                         _ => 0,
                     };
-                    cur_address += match segment.t {
+                    let size = match segment.t {
                         SegmentType::Code => items.len() as u32 * (item_size / 2),
                         SegmentType::Eeprom => items.len() as u32 * item_size,
                         _ => bail!(".dw are not allowed in data segment, {}", line),
                     };
+                    cur_address = advance(cur_address, size, line)?;
 
                     out_items.push((*line, item.clone()));
                 }
